@@ -296,6 +296,16 @@ func c10Run(c *mc.Ctx) {
 						for _, env := range senvs {
 							c10One(c, f, c10Case{Stream: true, Env: env, Desc: fmt.Sprintf("sections %d,%d,%d", a, b, d)})
 						}
+						if d < 0 { // per-Read deviations (<= 1, thorough 2) on frames with up to two sections
+							bd := 1
+							if th {
+								bd = 2
+							}
+							n, _ := exploreEnv(c, bd, func() {
+								c10One(c, f, c10Case{Stream: true, Env: EnvCfg{Chunk: 5, AfterErr: 1}, Desc: fmt.Sprintf("sections %d,%d with read deviations", a, b)})
+							})
+							c.Count("deviation-executions", n)
+						}
 						// (h) every truncation and structural perturbation of this valid frame
 						for cut := 0; cut < len(f); cut++ {
 							c10One(c, f[:cut], c10Case{Desc: "truncated frame"})
